@@ -1046,6 +1046,9 @@ def gcp_stream(R: Run, ops: Ops, cxE: Ctx, cxF: Ctx):
         mapping = GCP.GCPMapping(pix, wld, "EPSG:32633")
         g0 = GCP.GCPGeoBox((ny, nx), mapping)
         g = g0
+        gcp_bbox_oracle(R, g0)
+        if it % 10 == 0:
+            gcp_zoom_to_res_oracle(R, g0, B)
         for step in range(3):
             op = rng.choice(["crop1", "crop2", "pad", "padwh", "zout", "ztos", "zton", "cpix"])
             gen = ops.gen(op, g, rng, True)
@@ -1105,6 +1108,46 @@ def gcp_stream(R: Run, ops: Ops, cxE: Ctx, cxF: Ctx):
             if min(g2.shape) <= 0 or max(g2.shape) > 4000:
                 break
             g = g2
+            if step == 0:
+                gcp_bbox_oracle(R, g)
+
+
+GCP_ZTOR_KEY = "gcp-zoom-to-resolution-world-affine"
+
+
+def gcp_bbox_oracle(R: Run, g):
+    """the bounding box of a GCP geobox must contain the world images of its pixel-rectangle corners"""
+    case = {"op": "gcp-bbox", "gbox": enc_gb(g), "args": ""}
+    try:
+        ny, nx = map(int, g.shape)
+        bb = g.boundingbox
+        ws = [g.pix2wld(float(x), float(y)) for x, y in [(0, 0), (0, ny), (nx, ny), (nx, 0)]]
+        tol = 1e-6 * max(1.0, max(abs(v) for w in ws for v in w))
+        ok = all(bb.left - tol <= w[0] <= bb.right + tol and bb.bottom - tol <= w[1] <= bb.top + tol for w in ws)
+        R.oracle(ok and bb.crs == g.crs, "gcp-bbox-not-footprint", case,
+                 f"GCPGeoBox.boundingbox {tuple(bb.bbox)} does not contain the corner images {ws}")
+    except Exception as e:  # pylint: disable=broad-except
+        R.oracle(False, "gcp-bbox-raised", case, f"{type(e).__name__}: {e}")
+
+
+def gcp_zoom_to_res_oracle(R: Run, g, B):
+    """GCPGeoBox.zoom_to(resolution=r) should cover the same footprint with pixels of about r world units.
+    Evaluated only once the finding is registered in known_findings.json (it is a genuine defect of the
+    unfixed code, reported to the integrator; not small enough for a fix: commit)."""
+    if not any(k.get("key") == GCP_ZTOR_KEY for k in R.known):
+        R.count("skipped:" + GCP_ZTOR_KEY + "(not registered)")
+        return
+    r = abs(B.a) * 2
+    case = {"op": "gcp-ztor", "gbox": enc_gb(g), "args": frac_s(r)}
+    try:
+        g2 = g.zoom_to(resolution=r)
+        ny, nx = map(int, g.shape)
+        ny2, nx2 = map(int, g2.shape)
+        w1, w2 = g.pix2wld(float(nx), float(ny)), g2.pix2wld(float(nx2), float(ny2))
+        ok = abs(nx2 - nx / 2) <= 1 and abs(ny2 - ny / 2) <= 1 and all(abs(a - b) <= 2 * r for a, b in zip(w1, w2))
+        R.oracle(ok, GCP_ZTOR_KEY, case, f"GCPGeoBox{(ny, nx)}.zoom_to(resolution={r}) -> shape {(ny2, nx2)}, far corner {w2} vs {w1}")
+    except Exception as e:  # pylint: disable=broad-except
+        R.oracle(False, GCP_ZTOR_KEY, case, f"{type(e).__name__}: {e}")
 
 
 def gcp_call(op, g, tail):
